@@ -73,6 +73,76 @@ theorem mapOpt_eq (f : α → Option β) (g : α → β) (l : List α) (h : ∀ 
     have := ih (fun y hy => h y (by simp [hy]))
     simp [mapOpt, h x (by simp), this]
 
+theorem mapOpt_map_eq (f : γ → Option β) (h : α → γ) (g : α → β) (l : List α)
+    (hx : ∀ x ∈ l, f (h x) = some (g x)) : mapOpt f (l.map h) = some (l.map g) := by
+  induction l with
+  | nil => rfl
+  | cons x l ih =>
+    have := ih (fun y hy => hx y (by simp [hy]))
+    simp [mapOpt, hx x (by simp), this]
+
+theorem flatten_map_map (f : β → γ) (l : List (α × List β)) :
+    (l.map (fun x => x.2.map f)).flatten = (l.flatMap (·.2)).map f := by
+  induction l with
+  | nil => rfl
+  | cons x l ih => simp [List.flatMap_cons, ih]
+
+theorem filterMap_none' {f : α → Option β} {l : List α} (h : ∀ x ∈ l, f x = none) : l.filterMap f = [] := by
+  induction l with
+  | nil => rfl
+  | cons x l ih => simp [List.filterMap_cons, h x (by simp), ih (fun y hy => h y (by simp [hy]))]
+
+theorem filterMap_some' {f : α → Option β} {g : α → β} {l : List α} (h : ∀ x ∈ l, f x = some (g x)) :
+    l.filterMap f = l.map g := by
+  induction l with
+  | nil => rfl
+  | cons x l ih => simp [List.filterMap_cons, h x (by simp), ih (fun y hy => h y (by simp [hy]))]
+
+/-! ### declarations -/
+
+theorem parseDecls_plain_append (a rest : List Word) (ha : ∀ w ∈ a, isPlain w = true) :
+    parseDecls (a ++ rest) = parseDecls rest := by
+  induction a with
+  | nil => rfl
+  | cons w a ih =>
+    simp [parseDecls, ha w (by simp), ih (fun y hy => ha y (by simp [hy]))]
+
+theorem takeWhile_plain_append (a rest : List Word) (ha : ∀ w ∈ a, isPlain w = true)
+    (hr : ∀ w, rest.head? = some w → isPlain w = false) : (a ++ rest).takeWhile isPlain = a := by
+  induction a with
+  | nil =>
+    cases rest with
+    | nil => rfl
+    | cons w r => simp [List.takeWhile_cons, hr w (by simp)]
+  | cons w a ih =>
+    simp [List.takeWhile_cons, ha w (by simp), ih (fun y hy => ha y (by simp [hy]))]
+
+theorem parseDecls_lines (ls : List (Word × List Word))
+    (h : ∀ d ∈ ls, isPlain d.1 = false ∧ ∀ w ∈ d.2, isPlain w = true) :
+    parseDecls (ls.flatMap (fun d => d.1 :: d.2)) = ls := by
+  induction ls with
+  | nil => rfl
+  | cons d ls ih =>
+    have hd := h d (by simp)
+    have ih' := ih (fun y hy => h y (by simp [hy]))
+    have hhead : ∀ w, (ls.flatMap (fun d => d.1 :: d.2)).head? = some w → isPlain w = false := by
+      intro w hw
+      cases ls with
+      | nil => simp at hw
+      | cons d' ls' =>
+        simp only [List.flatMap_cons, List.cons_append, List.head?_cons, Option.some.injEq] at hw
+        subst hw
+        exact (h d' (by simp)).1
+    simp only [List.flatMap_cons, List.cons_append, parseDecls, hd.1]
+    rw [takeWhile_plain_append _ _ hd.2 hhead, parseDecls_plain_append _ _ hd.2, ih']
+    simp
+
+theorem declsOk_lines (ls : List (Word × List Word)) (h : ∀ d ∈ ls, isPlain d.1 = false) :
+    declsOk (ls.flatMap (fun d => d.1 :: d.2)) = true := by
+  cases ls with
+  | nil => rfl
+  | cons d ls => simp [declsOk, h d (by simp)]
+
 /-! ### facts about well-formed spellings -/
 
 theorem isPlain_ne_of_pct {w k : Word} (h : isPlain w = true) (hk : k.head? = some '%') : (w == k) = false := by
@@ -226,8 +296,9 @@ theorem skipBraces_clean (ws : List Word) (h : ∀ w ∈ ws, w.count '{' = 0 ∧
 
 def precPart (g : Gram) (r : Rule) : List Word := if r.prec == 0 then [] else [kPrec, name g r.prec]
 
-def altToks (g : Gram) (r : Rule) : List Word :=
-  (if r.rhs.isEmpty then [kEmpty] else symNames g r.rhs) ++ precPart g r
+def bodyToks (g : Gram) (r : Rule) : List Word := if r.rhs.isEmpty then [kEmpty] else symNames g r.rhs
+
+def altToks (g : Gram) (r : Rule) : List Word := bodyToks g r ++ precPart g r
 
 def altsToks (g : Gram) : List Rule → List Word
   | [] => []
@@ -335,7 +406,7 @@ theorem altWords_notLine (r : Rule) : ∀ w ∈ altWords g r, isLineComment w = 
 
 theorem clean_altWords (r : Rule) : clean (altWords g r) = altToks g r := by
   rw [clean_noLine _ (altWords_notLine hn r)]
-  simp only [altWords, altToks, precPart, List.filter_append]
+  simp only [altWords, altToks, bodyToks, precPart, List.filter_append]
   congr 1
   · split
     · rfl
@@ -372,12 +443,15 @@ theorem clean_startLine (i : Input) : clean (startLine g i) = [kStart, name g i.
   have hg := goodName_name hn i.nonterm
   have h1 := hg.notLine
   have h2 := hg.notBlock
-  have h3 := hg.ne_nil
+  have h3 : (name g i.nonterm).isEmpty = false := by simpa using hg.ne_nil
   have hk1 : isLineComment kStart = false := by decide
   have hk2 : isBlockComment kStart = false := by decide
   have hk3 : isLineComment kSlashes = true := by decide
+  have hk4 : kStart.isEmpty = false := by decide
+  have hk5 : kSlashes.isEmpty = false := by decide
+  have hk6 : kNoEoi.isEmpty = false := by decide
   cases hb : i.noEoi <;>
-    simp [startLine, clean, hb, List.filter_cons, List.takeWhile_cons, h1, h2, h3, hk1, hk2, hk3, kStart, kSlashes, kNoEoi]
+    simp [startLine, clean, hb, h1, h2, h3, hk1, hk2, hk3, hk4, hk5, hk6]
 
 theorem clean_precLine (p : Prec) : clean (precLine g p) = assocWord p.assoc :: p.terms.map (name g) := by
   apply clean_keep
@@ -444,6 +518,476 @@ theorem clean_lines : (lines g).flatMap clean = kOpen :: kClose :: toks g := by
   rw [flatMap_congr' (fun i _ => clean_startLine hn i), flatMap_congr' (fun p _ => clean_precLine hn p),
     flatMap_congr' (fun t _ => clean_tokenLine hn t), flatMap_congr' (fun grp _ => clean_groupLines hn grp)]
 
+/-! ### which words occur where -/
+
+theorem mem_symNames {w : Word} {rhs : List Item} (h : w ∈ symNames g rhs) : Good w := by
+  simp only [symNames, List.mem_filterMap] at h
+  obtain ⟨it, _, hit⟩ := h
+  cases it with
+  | sym i => simp at hit; subst hit; exact goodName_name hn i
+  | marker m => simp at hit
+
+theorem mem_altToks {w : Word} {r : Rule} (h : w ∈ altToks g r) : Good w ∨ w = kEmpty ∨ w = kPrec := by
+  simp only [altToks, bodyToks, precPart, List.mem_append] at h
+  rcases h with h | h
+  · split at h
+    · simp at h; exact Or.inr (Or.inl h)
+    · exact Or.inl (mem_symNames hn h)
+  · split at h
+    · simp at h
+    · simp at h
+      rcases h with rfl | rfl
+      · exact Or.inr (Or.inr rfl)
+      · exact Or.inl (goodName_name hn _)
+
+theorem mem_altsToks {w : Word} {rs : List Rule} (h : w ∈ altsToks g rs) :
+    Good w ∨ w = kEmpty ∨ w = kPrec ∨ w = kBar := by
+  cases rs with
+  | nil => simp [altsToks] at h
+  | cons r rs =>
+    simp only [altsToks, List.mem_append, List.mem_flatMap, List.mem_cons] at h
+    rcases h with h | ⟨x, _, rfl | h⟩
+    · rcases mem_altToks hn h with h | h | h
+      · exact Or.inl h
+      · exact Or.inr (Or.inl h)
+      · exact Or.inr (Or.inr (Or.inl h))
+    · exact Or.inr (Or.inr (Or.inr rfl))
+    · rcases mem_altToks hn h with h | h | h
+      · exact Or.inl h
+      · exact Or.inr (Or.inl h)
+      · exact Or.inr (Or.inr (Or.inl h))
+
+theorem mem_groupBody {w : Word} {grp : Nat × List Rule} (h : w ∈ groupBody g grp) :
+    Good w ∨ w = kEmpty ∨ w = kPrec ∨ w = kBar ∨ w = kColon := by
+  simp only [groupBody, List.mem_cons] at h
+  rcases h with rfl | rfl | h
+  · exact Or.inl (goodName_name hn _)
+  · simp
+  · rcases mem_altsToks hn h with h | h | h | h
+    · exact Or.inl h
+    · exact Or.inr (Or.inl h)
+    · exact Or.inr (Or.inr (Or.inl h))
+    · exact Or.inr (Or.inr (Or.inr (Or.inl h)))
+
+theorem mem_groupToks {w : Word} (h : w ∈ groupToks g) :
+    Good w ∨ w = kEmpty ∨ w = kPrec ∨ w = kBar ∨ w = kColon ∨ w = kSemi := by
+  simp only [groupToks, List.mem_flatMap, List.mem_append, List.mem_cons, List.mem_nil_iff, or_false] at h
+  obtain ⟨grp, _, h | rfl⟩ := h
+  · rcases mem_groupBody hn h with h | h | h | h | h
+    · exact Or.inl h
+    · exact Or.inr (Or.inl h)
+    · exact Or.inr (Or.inr (Or.inl h))
+    · exact Or.inr (Or.inr (Or.inr (Or.inl h)))
+    · exact Or.inr (Or.inr (Or.inr (Or.inr (Or.inl h))))
+  · simp
+
+theorem declLines_spec {d : Word × List Word} (h : d ∈ declLines g) :
+    (d.1 = kStart ∨ d.1 = kLeft ∨ d.1 = kRight ∨ d.1 = kNonassoc ∨ d.1 = kToken) ∧ ∀ w ∈ d.2, Good w := by
+  simp only [declLines, List.mem_append, List.mem_map] at h
+  rcases h with (⟨i, _, rfl⟩ | ⟨p, _, rfl⟩) | ⟨t, _, rfl⟩
+  · refine ⟨Or.inl rfl, ?_⟩
+    intro w hw; simp at hw; subst hw; exact goodName_name hn _
+  · refine ⟨?_, ?_⟩
+    · cases p.assoc <;> simp [assocWord]
+    · intro w hw; simp only [List.mem_map] at hw; obtain ⟨t, _, rfl⟩ := hw; exact goodName_name hn _
+  · refine ⟨by simp, ?_⟩
+    intro w hw; simp at hw; subst hw; exact goodName_name hn _
+
+theorem mem_declToks {w : Word} (h : w ∈ declToks g) :
+    Good w ∨ w = kStart ∨ w = kLeft ∨ w = kRight ∨ w = kNonassoc ∨ w = kToken := by
+  simp only [declToks, List.mem_flatMap, List.mem_cons] at h
+  obtain ⟨d, hd, rfl | h⟩ := h
+  · exact Or.inr (declLines_spec hn hd).1
+  · exact Or.inl ((declLines_spec hn hd).2 w h)
+
+theorem toks_noBrace : ∀ w ∈ toks g, w.count '{' = 0 ∧ w.count '}' = 0 := by
+  intro w hw
+  simp only [toks, List.mem_append, List.mem_cons, List.mem_nil_iff, or_false] at hw
+  rcases hw with h | rfl | h | rfl
+  · rcases mem_declToks hn h with h | rfl | rfl | rfl | rfl | rfl
+    · exact ⟨h.noOpen, h.noClose⟩
+    all_goals decide
+  · decide
+  · rcases mem_groupToks hn h with h | rfl | rfl | rfl | rfl | rfl
+    · exact ⟨h.noOpen, h.noClose⟩
+    all_goals decide
+  · decide
+
+theorem altWords_noWs (hm : MarkersWF g.markers) (r : Rule) : ∀ w ∈ altWords g r, noWsW w = true := by
+  intro w hw
+  simp only [altWords, List.mem_append] at hw
+  rcases hw with hw | hw
+  · split at hw
+    · simp at hw; subst hw; decide
+    · simp only [List.mem_map] at hw
+      obtain ⟨it, _, rfl⟩ := hw
+      cases it with
+      | sym i => exact (goodName_name hn i).noWsW
+      | marker m => exact marker_noWs hm m
+  · split at hw
+    · simp at hw
+    · simp at hw
+      rcases hw with rfl | rfl
+      · decide
+      · exact (goodName_name hn _).noWsW
+
+theorem lines_noWs (hm : MarkersWF g.markers) : ∀ l ∈ lines g, ∀ w ∈ l, ∀ c ∈ w, isWs c = false := by
+  suffices h : ∀ l ∈ lines g, ∀ w ∈ l, noWsW w = true by
+    intro l hl w hw c hc
+    have := h l hl w hw
+    simp only [noWsW, List.all_eq_true, Bool.not_eq_true'] at this
+    exact this c hc
+  intro l hl w hw
+  simp only [lines, List.mem_append, List.mem_cons, List.mem_map, List.mem_flatMap, List.mem_nil_iff,
+    or_false, or_assoc] at hl
+  rcases hl with rfl | rfl | rfl | ⟨i, _, rfl⟩ | rfl | ⟨p, _, rfl⟩ | ⟨t, _, rfl⟩ | rfl | rfl | ⟨grp, _, h⟩ | rfl | rfl | rfl
+  · simp at hw; subst hw; decide
+  · simp at hw; subst hw; decide
+  · simp at hw
+  · simp only [startLine, List.mem_append, List.mem_cons, List.mem_nil_iff, or_false] at hw
+    rcases hw with (rfl | rfl) | hw
+    · decide
+    · exact (goodName_name hn _).noWsW
+    · split at hw
+      · simp at hw; rcases hw with rfl | rfl <;> decide
+      · simp at hw
+  · simp at hw
+  · simp only [precLine, List.mem_cons, List.mem_map] at hw
+    rcases hw with rfl | ⟨t, _, rfl⟩
+    · cases p.assoc <;> decide
+    · exact (goodName_name hn _).noWsW
+  · simp only [tokenLine, List.mem_cons, List.mem_nil_iff, or_false] at hw
+    rcases hw with rfl | rfl
+    · decide
+    · exact (goodName_name hn _).noWsW
+  · simp at hw
+  · simp at hw; subst hw; decide
+  · simp only [groupLines, List.mem_append, List.mem_cons, List.mem_nil_iff, or_false] at h
+    rcases h with ((rfl | rfl) | h) | rfl
+    · simp at hw
+    · simp at hw
+      rcases hw with rfl | rfl
+      · exact (goodName_name hn _).noWsW
+      · decide
+    · cases hrs : grp.2 with
+      | nil => simp [hrs, altLines] at h
+      | cons r rs =>
+        simp only [hrs, altLines, List.mem_cons, List.mem_map] at h
+        rcases h with rfl | ⟨x, _, rfl⟩
+        · simp only [List.mem_cons] at hw
+          rcases hw with rfl | rfl | hw
+          · decide
+          · decide
+          · exact altWords_noWs hn hm r w hw
+        · simp only [List.mem_cons] at hw
+          rcases hw with rfl | hw
+          · decide
+          · exact altWords_noWs hn hm x w hw
+    · simp at hw; subst hw; decide
+  · simp at hw
+  · simp at hw; subst hw; decide
+  · simp at hw
+
+/-- the lexer reads the rendered text back as the token stream `toks g` -/
+theorem lexY_render (hm : MarkersWF g.markers) : lexY (renderChars g) = toks g := by
+  unfold renderChars
+  rw [lexY_unlines _ (lines_noWs hn hm), clean_lines hn]
+  have : skipBraces 0 (kOpen :: kClose :: toks g) = skipBraces 0 (toks g) := by
+    simp [skipBraces, kOpen, kClose]
+  rw [this, skipBraces_clean _ (toks_noBrace hn)]
+
+/-! ### parsing the token stream back -/
+
+theorem declLines_ok : ∀ d ∈ declLines g, isPlain d.1 = false ∧ ∀ w ∈ d.2, isPlain w = true := by
+  intro d hd
+  obtain ⟨h1, h2⟩ := declLines_spec hn hd
+  refine ⟨?_, fun w hw => (h2 w hw).plain⟩
+  rcases h1 with h | h | h | h | h <;> rw [h] <;> decide
+
+omit hn in
+theorem assocOf_assocWord (a : Assoc) : assocOf (assocWord a) = some a := by
+  cases a <;> decide
+
+omit hn in
+theorem precsOf_declLines : precsOf (declLines g) = precOf g := by
+  simp only [precsOf, declLines, List.filterMap_append, List.filterMap_map]
+  rw [filterMap_none' (l := g.inputs), filterMap_some' (g := precN g) (l := g.prec), filterMap_none']
+  · simp [precOf]
+  · intro t _; simp only [Function.comp]; rfl
+  · intro p _; simp only [Function.comp, precN, assocOf_assocWord, Option.map_some]
+  · intro i _; simp only [Function.comp]; rfl
+
+theorem mem_bodyToks {w : Word} {r : Rule} (h : w ∈ bodyToks g r) : Good w ∨ w = kEmpty := by
+  simp only [bodyToks] at h
+  split at h
+  · simp at h; exact Or.inr h
+  · exact Or.inl (mem_symNames hn h)
+
+theorem bodyToks_filter (r : Rule) : (bodyToks g r).filter (fun w => !(w == kEmpty)) = symNames g r.rhs := by
+  simp only [bodyToks]
+  split
+  · rename_i he
+    have : r.rhs = [] := by simpa using he
+    simp [this, symNames]
+  · apply filter_all
+    intro w hw
+    simp [isPlain_ne_of_pct (mem_symNames hn hw).plain (k := kEmpty) rfl]
+
+theorem bodyOk_bodyToks (r : Rule) : bodyOk (bodyToks g r) = true := by
+  simp only [bodyOk, List.all_eq_true, Bool.or_eq_true]
+  intro w hw
+  rcases mem_bodyToks hn hw with h | rfl
+  · exact Or.inl h.plain
+  · exact Or.inr (by decide)
+
+theorem parseAlt_altToks (lhs : Word) (r : Rule) :
+    parseAlt lhs (altToks g r) =
+      some ⟨lhs, symNames g r.rhs, if r.prec == 0 then none else some (name g r.prec)⟩ := by
+  have hb : ∀ w ∈ bodyToks g r, (fun w => w == kPrec) w = false := by
+    intro w hw
+    rcases mem_bodyToks hn hw with h | rfl
+    · exact isPlain_ne_of_pct h.plain rfl
+    · decide
+  by_cases hp : (r.prec == 0) = true
+  · have hc : chunks (fun w => w == kPrec) (altToks g r) = [bodyToks g r] := by
+      simp only [altToks, precPart, hp, if_true, List.append_nil]
+      exact chunks_no _ _ hb
+    simp only [parseAlt, hc, bodyOk_bodyToks hn r, bodyToks_filter hn r, hp, if_true]
+  · have hnm := goodName_name hn r.prec
+    have h1 : chunks (fun w => w == kPrec) [name g r.prec] = [[name g r.prec]] :=
+      chunks_no _ _ (by intro w hw; simp at hw; subst hw; exact isPlain_ne_of_pct hnm.plain rfl)
+    have hc : chunks (fun w => w == kPrec) (altToks g r) = [bodyToks g r, [name g r.prec]] := by
+      simp only [altToks, precPart, if_neg hp]
+      rw [chunks_append_sep _ _ _ kPrec (by decide) hb, h1]
+    simp only [parseAlt, hc, bodyOk_bodyToks hn r, bodyToks_filter hn r, hnm.plain, if_neg hp, Bool.and_self, if_true]
+
+def ruleNL (g : Gram) (lhs : Word) (r : Rule) : RuleN :=
+  ⟨lhs, symNames g r.rhs, if r.prec == 0 then none else some (name g r.prec)⟩
+
+theorem altToks_noBar {w : Word} {r : Rule} (h : w ∈ altToks g r) : (fun w => w == kBar) w = false := by
+  rcases mem_altToks hn h with h | rfl | rfl
+  · exact (isPlain_ne_punct h.plain).2.1
+  · decide
+  · decide
+
+theorem parseGroup_body (grp : Nat × List Rule) (hne : grp.2 ≠ []) :
+    parseGroup (groupBody g grp) = some (grp.2.map (ruleNL g (name g grp.1))) := by
+  have hnm := goodName_name hn grp.1
+  obtain ⟨l, rs⟩ := grp
+  cases rs with
+  | nil => exact absurd rfl hne
+  | cons r rs =>
+    have hc : chunks (fun w => w == kBar) (altsToks g (r :: rs)) = (r :: rs).map (altToks g) := by
+      simp only [altsToks, List.map_cons]
+      exact chunks_sep _ _ _ (altToks g) kBar (by decide) (fun w hw => altToks_noBar hn hw)
+        (fun x _ w hw => altToks_noBar hn hw)
+    have hk : (kColon == kColon) = true := by decide
+    simp only [groupBody, parseGroup, hnm.plain, hk, Bool.and_self, if_true, hc]
+    exact mapOpt_map_eq _ _ _ _ (fun x _ => parseAlt_altToks hn _ x)
+
+theorem groupBody_noSemi {w : Word} {grp : Nat × List Rule} (h : w ∈ groupBody g grp) :
+    (fun w => w == kSemi) w = false := by
+  rcases mem_groupBody hn h with h | rfl | rfl | rfl | rfl
+  · exact (isPlain_ne_punct h.plain).2.2
+  all_goals decide
+
+theorem parseRules_groups (gs : List (Nat × List Rule)) (hne : ∀ grp ∈ gs, grp.2 ≠ []) :
+    parseRules (gs.flatMap (fun grp => groupBody g grp ++ [kSemi])) =
+      some ((gs.map (fun grp => grp.2.map (ruleNL g (name g grp.1)))).flatten) := by
+  unfold parseRules
+  rw [chunks_term _ gs (groupBody g) kSemi (by decide) (fun grp _ w hw => groupBody_noSemi hn hw),
+    initIfLastNil_append]
+  simp only
+  rw [mapOpt_map_eq parseGroup (groupBody g) (fun grp => grp.2.map (ruleNL g (name g grp.1))) gs
+    (fun grp hg => parseGroup_body hn grp (hne grp hg))]
+  rfl
+
+omit hn in
+theorem groupsF_spec (n : Nat) (rs : List Rule) :
+    ∀ grp ∈ groupsF n rs, grp.2 ≠ [] ∧ ∀ r ∈ grp.2, r.lhs = grp.1 := by
+  induction n generalizing rs with
+  | zero => simp [groupsF]
+  | succ n ih =>
+    cases rs with
+    | nil => simp [groupsF]
+    | cons r rs =>
+      intro grp hg
+      simp only [groupsF, List.mem_cons] at hg
+      rcases hg with rfl | hg
+      · refine ⟨by simp, ?_⟩
+        intro x hx
+        simp only [List.mem_cons, List.mem_filter, beq_iff_eq] at hx
+        rcases hx with rfl | ⟨_, h⟩
+        · rfl
+        · exact h
+      · exact ih _ grp hg
+
+omit hn in
+theorem groups_spec (rs : List Rule) : ∀ grp ∈ groups rs, grp.2 ≠ [] ∧ ∀ r ∈ grp.2, r.lhs = grp.1 :=
+  groupsF_spec _ rs
+
+theorem toks_chunks : chunks (fun w => w == kPP) (toks g) = [declToks g, groupToks g, []] := by
+  have h1 : ∀ w ∈ declToks g, (fun w => w == kPP) w = false := by
+    intro w hw
+    rcases mem_declToks hn hw with h | rfl | rfl | rfl | rfl | rfl
+    · exact isPlain_ne_of_pct h.plain rfl
+    all_goals decide
+  have h2 : ∀ w ∈ groupToks g, (fun w => w == kPP) w = false := by
+    intro w hw
+    rcases mem_groupToks hn hw with h | rfl | rfl | rfl | rfl | rfl
+    · exact isPlain_ne_of_pct h.plain rfl
+    all_goals decide
+  unfold toks
+  rw [chunks_append_sep _ _ _ kPP (by decide) h1, chunks_append_sep _ _ _ kPP (by decide) h2]
+  rfl
+
+/-- the parser reads the token stream of a rendered grammar back -/
+theorem parseToks_toks (ho : OrderKept g.rules) : parseToks (toks g) = some (rulesOf g, precOf g) := by
+  have hspec := groups_spec g.rules
+  unfold parseToks
+  rw [toks_chunks hn]
+  simp only
+  have hd : declsOk (declToks g) = true := declsOk_lines _ (fun d hd => (declLines_ok hn d hd).1)
+  have hp : parseDecls (declToks g) = declLines g := parseDecls_lines _ (declLines_ok hn)
+  have hr := parseRules_groups hn (groups g.rules) (fun grp hg => (hspec grp hg).1)
+  rw [hd, hp, precsOf_declLines]
+  simp only [if_true, groupToks, hr, Option.map_some]
+  congr 2
+  -- the rules: lhs of every rule of a group is the group key, and grouping keeps the order
+  have : (groups g.rules).map (fun grp => grp.2.map (ruleNL g (name g grp.1))) =
+      (groups g.rules).map (fun grp => grp.2.map (ruleN g)) := by
+    apply List.map_congr_left
+    intro grp hg
+    apply List.map_congr_left
+    intro r hr
+    simp [ruleNL, ruleN, (hspec grp hg).2 r hr]
+  rw [this]
+  unfold rulesOf
+  unfold OrderKept at ho
+  conv => rhs; rw [← ho]
+  exact flatten_map_map _ _
+
 end
+
+/-! ### from spellings back to symbol indices -/
+
+def syms (rhs : List Item) : List Nat :=
+  rhs.filterMap fun
+    | .sym i => some i
+    | .marker _ => none
+
+theorem symNames_eq (g : Gram) (rhs : List Item) : symNames g rhs = (syms rhs).map (name g) := by
+  induction rhs with
+  | nil => rfl
+  | cons it rhs ih =>
+    cases it with
+    | sym i => simp [symNames, syms] at ih ⊢; exact ih
+    | marker m => simp [symNames, syms] at ih ⊢; exact ih
+
+theorem eraseMarkers_rhs (r : Rule) : (eraseMarkers r).rhs = (syms r.rhs).map Item.sym := by
+  simp only [eraseMarkers]
+  induction r.rhs with
+  | nil => rfl
+  | cons it rhs ih =>
+    cases it with
+    | sym i => simp [syms] at ih ⊢; exact ih
+    | marker m => simp [syms] at ih ⊢; exact ih
+
+theorem name_inj {g : Gram} (hnd : g.names.Nodup) {i j : Nat} (hi : i < g.names.length)
+    (hj : j < g.names.length) (h : name g i = name g j) : i = j := by
+  simp only [name, List.getD_eq_getElem?_getD, List.getElem?_eq_getElem hi, List.getElem?_eq_getElem hj,
+    Option.getD_some] at h
+  exact (List.Nodup.getElem_inj_iff hnd).mp h
+
+theorem map_inj_on {f : α → β} {l1 l2 : List α} (hf : ∀ x ∈ l1, ∀ y ∈ l2, f x = f y → x = y)
+    (h : l1.map f = l2.map f) : l1 = l2 := by
+  induction l1 generalizing l2 with
+  | nil => cases l2 with
+    | nil => rfl
+    | cons y l2 => simp at h
+  | cons x l1 ih =>
+    cases l2 with
+    | nil => simp at h
+    | cons y l2 =>
+      simp only [List.map_cons, List.cons.injEq] at h
+      have := hf x (by simp) y (by simp) h.1
+      subst this
+      rw [ih (fun a ha b hb => hf a (by simp [ha]) b (by simp [hb])) h.2]
+
+theorem map_rel {f1 : α → γ} {f2 : β → γ} {h1 : α → δ} {h2 : β → δ} {l1 : List α} {l2 : List β}
+    (hr : ∀ x ∈ l1, ∀ y ∈ l2, f1 x = f2 y → h1 x = h2 y) (h : l1.map f1 = l2.map f2) :
+    l1.map h1 = l2.map h2 := by
+  induction l1 generalizing l2 with
+  | nil => cases l2 with
+    | nil => rfl
+    | cons y l2 => simp at h
+  | cons x l1 ih =>
+    cases l2 with
+    | nil => simp at h
+    | cons y l2 =>
+      simp only [List.map_cons, List.cons.injEq] at h ⊢
+      exact ⟨hr x (by simp) y (by simp) h.1, ih (fun a ha b hb => hr a (by simp [ha]) b (by simp [hb])) h.2⟩
+
+theorem mem_syms {i : Nat} {rhs : List Item} (h : i ∈ syms rhs) : Item.sym i ∈ rhs := by
+  simp only [syms, List.mem_filterMap] at h
+  obtain ⟨it, hit, he⟩ := h
+  cases it with
+  | sym j => simp at he; subst he; exact hit
+  | marker m => simp at he
+
+theorem inRange_rule {g : Gram} (h : inRange g = true) {r : Rule} (hr : r ∈ g.rules) :
+    r.lhs < g.names.length ∧ (r.prec = 0 ∨ r.prec < g.names.length) ∧ ∀ i ∈ syms r.rhs, i < g.names.length := by
+  simp only [inRange, Bool.and_eq_true, List.all_eq_true, Bool.or_eq_true, beq_iff_eq, decide_eq_true_eq] at h
+  obtain ⟨⟨h1, h2⟩, h3⟩ := h.1 r hr
+  refine ⟨h1, h2, ?_⟩
+  intro i hi
+  have := h3 _ (mem_syms hi)
+  simpa using this
+
+theorem rules_of_rulesOf {g₁ g₂ : Gram} (hnames : g₁.names = g₂.names) (hnd : g₁.names.Nodup)
+    (hr₁ : inRange g₁ = true) (hr₂ : inRange g₂ = true) (h : rulesOf g₁ = rulesOf g₂) :
+    g₁.rules.map eraseMarkers = g₂.rules.map eraseMarkers := by
+  have hname : ∀ i, name g₂ i = name g₁ i := fun i => by simp [name, hnames]
+  apply map_rel (f1 := ruleN g₁) (f2 := ruleN g₂) _ h
+  intro r₁ hm₁ r₂ hm₂ he
+  obtain ⟨a1, a2, a3⟩ := inRange_rule hr₁ hm₁
+  obtain ⟨b1, b2, b3⟩ := inRange_rule hr₂ hm₂
+  rw [← hnames] at b1 b2 b3
+  simp only [ruleN, RuleN.mk.injEq, hname, symNames_eq] at he
+  obtain ⟨e1, e2, e3⟩ := he
+  have l := name_inj hnd a1 b1 e1
+  have rr : syms r₁.rhs = syms r₂.rhs :=
+    map_inj_on (fun x hx y hy hxy => name_inj hnd (a3 x hx) (b3 y hy) hxy) e2
+  have pp : r₁.prec = r₂.prec := by
+    by_cases p1 : r₁.prec = 0 <;> by_cases p2 : r₂.prec = 0
+    · rw [p1, p2]
+    · simp [p1, p2] at e3
+    · simp [p1, p2] at e3
+    · simp only [beq_iff_eq, p1, p2, if_false, Option.some.injEq] at e3
+      exact name_inj hnd (a2.resolve_left p1) (b2.resolve_left p2) e3
+  have : ∀ r : Rule, eraseMarkers r = ⟨r.lhs, (syms r.rhs).map Item.sym, r.prec⟩ := by
+    intro r
+    have := eraseMarkers_rhs r
+    cases r
+    simp_all [eraseMarkers]
+  rw [this r₁, this r₂, l, rr, pp]
+
+theorem prec_of_precOf {g₁ g₂ : Gram} (hnames : g₁.names = g₂.names) (hnd : g₁.names.Nodup)
+    (hr₁ : inRange g₁ = true) (hr₂ : inRange g₂ = true) (h : precOf g₁ = precOf g₂) : g₁.prec = g₂.prec := by
+  have hname : ∀ i, name g₂ i = name g₁ i := fun i => by simp [name, hnames]
+  have q₁ : ∀ p ∈ g₁.prec, ∀ t ∈ p.terms, t < g₁.names.length := by
+    simp only [inRange, Bool.and_eq_true, List.all_eq_true, decide_eq_true_eq] at hr₁
+    exact hr₁.2
+  have q₂ : ∀ p ∈ g₂.prec, ∀ t ∈ p.terms, t < g₁.names.length := by
+    simp only [inRange, Bool.and_eq_true, List.all_eq_true, decide_eq_true_eq] at hr₂
+    rw [hnames]; exact hr₂.2
+  have := map_rel (f1 := precN g₁) (f2 := precN g₂) (h1 := id) (h2 := id) (l1 := g₁.prec) (l2 := g₂.prec) ?_ h
+  · simpa using this
+  intro p₁ hp₁ p₂ hp₂ he
+  simp only [precN, PrecN.mk.injEq, hname] at he
+  have tt : p₁.terms = p₂.terms :=
+    map_inj_on (fun x hx y hy hxy => name_inj hnd (q₁ p₁ hp₁ x hx) (q₂ p₂ hp₂ y hy) hxy) he.2
+  cases p₁; cases p₂
+  simp_all
 
 end TmVerif.Bison
